@@ -185,6 +185,10 @@ def _parse_raw_data(region_str):
                           AstropyUserWarning)
             if frame_or_shape in unsupported_frames:
                 frame = None
+            elif '||' not in line and composite_meta:
+                # an unsupported shape that is not joined by "||" is the
+                # last member of a composite region
+                composite_meta = {}
             continue
 
         if frame_or_shape in supported_frames:
